@@ -233,12 +233,39 @@ static int gw_exec(const int *prog, int n) {
     return gw_run(prog, n);
 }
 
+/* ---- optional: every program must end in a terminal (dead-end) state (drivers that cannot abandon a run midway) ---- */
+static int gw_need_terminal;
+static int *gw_to_term;      /* next edge on a shortest path to a dead-end state, -1 at dead ends, -2 unreachable */
+static void gw_build_to_term(void) {
+    gw_to_term = malloc(sizeof(int) * gw_nstates);
+    int *dist = malloc(sizeof(int) * gw_nstates);
+    for (int i = 0; i < gw_nstates; i++) { gw_to_term[i] = gw_states[i].nedges == 0 ? -1 : -2; dist[i] = gw_states[i].nedges == 0 ? 0 : 1 << 30; }
+    for (int changed = 1; changed;) {
+        changed = 0;
+        for (int e = 0; e < gw_nedges; e++) {
+            int s = gw_edges[e].src, d = gw_edges[e].dst;
+            if (dist[d] < (1 << 30) && dist[d] + 1 < dist[s]) { dist[s] = dist[d] + 1; gw_to_term[s] = e; changed = 1; }
+        }
+    }
+    free(dist);
+}
+static int gw_complete(int *prog, int len, int cap) {
+    if (!gw_need_terminal) return len;
+    if (!gw_to_term) gw_build_to_term();
+    int cur = len ? gw_edges[prog[len - 1]].dst : gw_inits[0];
+    while (gw_to_term[cur] >= 0 && len < cap) { prog[len++] = gw_to_term[cur]; cur = gw_edges[prog[len - 1]].dst; }
+    return len;
+}
+
 /* all maximal paths of length <= D from every initial state (every path <= D is a prefix of one) */
 static void gw_dfs(int st, int *prog, int depth, int D, uint64_t budget) {
     if (gw_programs >= budget) return;
     gw_state *s = &gw_states[st];
     if (depth == D || s->nedges == 0) {
-        if (depth > 0) gw_exec(prog, depth);
+        if (depth > 0) {
+            int len = gw_complete(prog, depth, D + gw_nstates + 2);
+            gw_exec(prog, len);
+        }
         return;
     }
     int ext = 0;
@@ -252,7 +279,7 @@ static void gw_dfs(int st, int *prog, int depth, int D, uint64_t budget) {
 }
 
 static int gw_paths(int D, uint64_t budget) {
-    int *prog = calloc(D + 1, sizeof(int));
+    int *prog = calloc(D + gw_nstates + 4, sizeof(int));
     uint64_t before = gw_programs;
     gw_obs_mode = 1;
     for (int i = 0; i < gw_ninit; i++) gw_dfs(gw_inits[i], prog, 0, D, budget);
@@ -275,7 +302,7 @@ static void gw_cover(int tail, unsigned seed) {
             if (pred[d] == -2) { pred[d] = e; queue[qt++] = d; }
         }
     }
-    int cap = gw_nstates + tail + 4;
+    int cap = 2 * gw_nstates + tail + 8;
     int *prog = malloc(sizeof(int) * cap), *rev = malloc(sizeof(int) * cap);
     srand(seed);
     for (int e = 0; e < gw_nedges; e++) {
@@ -292,13 +319,14 @@ static void gw_cover(int tail, unsigned seed) {
             prog[len++] = k;
             cur = gw_edges[k].dst;
         }
+        len = gw_complete(prog, len, cap);
         gw_exec(prog, len);
     }
     free(pred); free(queue); free(prog); free(rev);
 }
 
 static void gw_walks(uint64_t N, int L, unsigned seed) {
-    int *prog = malloc(sizeof(int) * (L + 1));
+    int *prog = malloc(sizeof(int) * (L + gw_nstates + 4));
     srand(seed);
     for (uint64_t w = 0; w < N; w++) {
         int cur = gw_inits[rand() % gw_ninit], len = 0;
@@ -307,6 +335,7 @@ static void gw_walks(uint64_t N, int L, unsigned seed) {
             prog[len++] = k;
             cur = gw_edges[k].dst;
         }
+        len = gw_complete(prog, len, L + gw_nstates + 2);
         if (len) gw_exec(prog, len);
     }
     free(prog);
@@ -393,7 +422,7 @@ static int gw_main(int argc, char **argv) {
     unsigned seed = (unsigned)strtoul(argv[8], NULL, 10);
     int complete = 1;
     if (D > 0) complete = gw_paths(D, budget);
-    gw_cover(4, seed);
+    gw_cover(getenv("GW_COVER_TAIL") ? atoi(getenv("GW_COVER_TAIL")) : 4, seed);
     if (walks) gw_walks(walks, L, seed + 17);
     gw_print_stats(complete);
     return 0;
